@@ -457,8 +457,86 @@ fn varint_case(v: &u64) -> CaseReport {
 
 // ------------------------------------------------------------------------------------------
 
+/// E4: the libFuzzer target fuzzproj/fuzz/fuzz_targets/codec_chunking.rs (includes /repo's protobuf_utils.rs by
+/// path). Ok(None) = no crash in the fixed number of runs, Ok(Some(..)) = crashing input saved, Err = the tier
+/// could not run (nightly / cargo-fuzz unavailable): reported in the evidence, the proptest tiers decide alone.
+fn fuzz_tier(ctx: &Ctx, single_input: Option<&std::path::Path>) -> Result<Option<(std::path::PathBuf, String)>, String> {
+    let dir = std::path::Path::new(VERIF_ROOT).join("fuzzproj/fuzz");
+    if !dir.join("Cargo.toml").exists() {
+        return Err("fuzzproj/fuzz missing".into());
+    }
+    let work = work_dir(ctx).join("fuzz");
+    std::fs::create_dir_all(work.join("corpus")).map_err(|e| e.to_string())?;
+    std::fs::create_dir_all(work.join("artifacts")).map_err(|e| e.to_string())?;
+    let build = std::process::Command::new("cargo")
+        .current_dir(&dir)
+        .env("CARGO_NET_OFFLINE", "true")
+        .args(["+nightly", "fuzz", "build", "codec_chunking"])
+        .output()
+        .map_err(|e| format!("cargo fuzz build: {}", e))?;
+    if !build.status.success() {
+        return Err(format!("cargo +nightly fuzz build failed: {}", String::from_utf8_lossy(&build.stderr).chars().rev().take(400).collect::<String>().chars().rev().collect::<String>()));
+    }
+    let mut cmd = std::process::Command::new("cargo");
+    cmd.current_dir(&dir).env("CARGO_NET_OFFLINE", "true").args(["+nightly", "fuzz", "run", "codec_chunking"]);
+    let art = format!("-artifact_prefix={}/", work.join("artifacts").display());
+    match single_input {
+        Some(f) => {
+            cmd.arg(f).arg("--").arg(&art);
+        }
+        None => {
+            let runs = ctx.tier.pick(15_000u32, 600_000u32);
+            cmd.arg(work.join("corpus")).arg(dir.join("seeds/codec_chunking")).arg("--").arg(&art).arg(format!("-runs={}", runs)).arg(format!("-seed={}", ctx.seed.max(1))).arg("-len_control=0").arg("-max_len=256");
+            if matches!(ctx.tier, Tier::Thorough) {
+                cmd.arg("-jobs=8").arg("-workers=8");
+            }
+        }
+    }
+    let out = cmd.output().map_err(|e| format!("cargo fuzz run: {}", e))?;
+    let text = format!("{}{}", String::from_utf8_lossy(&out.stdout), String::from_utf8_lossy(&out.stderr));
+    let mut found: Option<std::path::PathBuf> = None;
+    if let Ok(rd) = std::fs::read_dir(work.join("artifacts")) {
+        for e in rd.flatten() {
+            found = Some(e.path());
+        }
+    }
+    if out.status.success() && found.is_none() {
+        std::fs::remove_dir_all(&work).ok();
+        return Ok(None);
+    }
+    let msg: String = text.lines().filter(|l| l.contains("panicked") || l.contains("assertion") || l.contains("left:") || l.contains("right:") || l.contains("ERROR: libFuzzer")).take(6).collect::<Vec<_>>().join(" | ");
+    match (found, single_input) {
+        (Some(f), _) => {
+            let dest = out_root().join("replays").join(format!("C20-fuzz-{}.bin", f.file_name().and_then(|n| n.to_str()).unwrap_or("crash").replace("crash-", "").chars().take(16).collect::<String>()));
+            std::fs::create_dir_all(dest.parent().unwrap()).ok();
+            std::fs::copy(&f, &dest).ok();
+            std::fs::remove_dir_all(&work).ok();
+            Ok(Some((dest, msg)))
+        }
+        (None, Some(f)) => Ok(Some((f.to_path_buf(), msg))),
+        (None, None) => Err(format!("fuzz run failed without an artifact: {}", msg)),
+    }
+}
+
 pub fn main(ctx: &Ctx) -> i32 {
     if let Some(p) = &ctx.replay {
+        if p.extension().and_then(|e| e.to_str()) == Some("bin") {
+            return match fuzz_tier(ctx, Some(p)) {
+                Ok(None) => {
+                    println!("OK property=C20 replay passed");
+                    0
+                }
+                Ok(Some((f, m))) => {
+                    println!("violation detail: libFuzzer target codec_chunking fails on this input: {}", m);
+                    println!("VIOLATION property=C20 replay={}", f.display());
+                    1
+                }
+                Err(e) => {
+                    eprintln!("replay inconclusive: {}", e);
+                    2
+                }
+            };
+        }
         let v: serde_json::Value = match read_replay(p) {
             Ok(v) => v,
             Err(e) => {
@@ -500,5 +578,39 @@ pub fn main(ctx: &Ctx) -> i32 {
         return finish(ctx, &stats, fin(), fail);
     }
     let fail = run_cases(ctx, &stats, varint_strategy as fn() -> _, n_varints, cores(), 500, varint_case);
-    finish(ctx, &stats, fin(), fail)
+    if fail.is_some() {
+        return finish(ctx, &stats, fin(), fail);
+    }
+    // saved fuzz artifacts first (regression), then the coverage-guided campaign
+    if let Ok(rd) = std::fs::read_dir(std::path::Path::new(VERIF_ROOT).join("replays")) {
+        let mut bins: Vec<std::path::PathBuf> = rd.flatten().map(|e| e.path()).filter(|p| p.file_name().and_then(|n| n.to_str()).map(|n| n.starts_with("C20-fuzz-") && n.ends_with(".bin")).unwrap_or(false)).collect();
+        bins.sort();
+        for b in bins {
+            if let Ok(Some((f, m))) = fuzz_tier(ctx, Some(&b)) {
+                write_evidence(ctx, &stats, &fin(), 1);
+                println!("violation detail: libFuzzer target codec_chunking fails on the saved input: {}", m);
+                println!("VIOLATION property=C20 replay={}", f.display());
+                return 1;
+            }
+        }
+    }
+    let t0 = std::time::Instant::now();
+    match fuzz_tier(ctx, None) {
+        Ok(None) => {
+            stats.label_n("libfuzzer_runs_without_crash", ctx.tier.pick(15_000u64, 600_000u64 * 8));
+            stats.set_extra("e4_libfuzzer", serde_json::json!({"target": "codec_chunking", "status": "no crash", "wall_s": t0.elapsed().as_secs_f64()}));
+        }
+        Ok(Some((f, m))) => {
+            stats.set_extra("e4_libfuzzer", serde_json::json!({"target": "codec_chunking", "status": "crash", "artifact": f.display().to_string()}));
+            write_evidence(ctx, &stats, &fin(), 1);
+            println!("violation detail: libFuzzer target codec_chunking: {}", m);
+            println!("VIOLATION property=C20 replay={}", f.display());
+            return 1;
+        }
+        Err(e) => {
+            eprintln!("note: E4 libFuzzer tier unavailable ({}); the proptest tiers decide alone", e.chars().take(300).collect::<String>());
+            stats.set_extra("e4_libfuzzer", serde_json::json!({"target": "codec_chunking", "status": "unavailable", "why": e.chars().take(300).collect::<String>()}));
+        }
+    }
+    finish(ctx, &stats, fin(), None::<Failure<StreamCase>>)
 }
